@@ -11,7 +11,7 @@ PROPS = {
     "C25": dict(engine="rpcmon", race=True, level="exploration", design="C25", technique=_T,
                 text="All transmissions of a request are byte-identical in (msg id, seq no, body); at most 1+MaxRetries; none earlier than RetryInterval of fake time after its timer was armed; "
                      "RetryLimitReachedErr exactly after the last allowed unacknowledged resend; no transmission after retryUntilAck returned; a due timer always leads to a resend in settled schedules. "
-                     "Grid MaxRetries 1..6 x ack position x failing send index x clock step, acknowledgements delivered as single ids and inside msgs_ack batches of 1..6 ids (pending id first/last/middle/repeated, mixed with unknown ids and ids of other pending/acked/completed calls; empty and nil batches), plus PCT/free schedules.",
+                     "Grid MaxRetries 1..6 x ack position x failing send index x clock step, acknowledgements delivered as single ids and inside msgs_ack batches of 1..6 ids (pending id first/last/middle/repeated, mixed with unknown ids and ids of other pending/acked/completed calls; empty and nil batches), failing transmission k=0..MaxRetries with a plain error, context.Canceled or DeadlineExceeded followed by clock travel past every deadline (a Do that neither re-sends nor returns within one interval of a failed transmission in a settled world is a violation), plus PCT/free schedules.",
                 note="A resend picked by select while an ack is delivered but not yet consumed by the Do goroutine is counted, not asserted (inherent race). neo fake clock trusted.",
                 watchdog={"quick": 600, "thorough": 3 * 3600}),
     "C26": dict(engine="rpcmon", race=True, also=[dict(engine="saltping", race=True)], level="exploration", design="C26", technique=_T,
